@@ -22,6 +22,16 @@
 //	Q pre extra vals i    | nil or index in base                   PtrAt
 //	S i l1;l2;…           | elements [ALIAS]                       Stripe ("-" = no lists)
 //
+// Supplementary operations, outside property C17, generated only with -prop C17x:
+//
+//	Z pre extra vals 0    | base-after                             Zero
+//	D pre extra vals 0    | view base-after                        Dedup (slices.Compact)
+//	V pre extra vals 0    | base-after                             Reverse (slices.Reverse)
+//	L vals mask m         | yielded-values f-calls                 Select, consumer breaks after m values (m <= 0: never)
+//	M keys                | nil, or sorted keys                    MapKeys
+//	K keys mask m order   | yielded-keys f-calls                   MatchingKeys on {k: k+100}; order = the keys in the
+//	                                                               order the runtime visited them (oracle, filled in by the harness)
+//
 // Any panic is printed as panic:<kind> with kind in {rt-index, rt-slice, rt-div, rt-make, rt-other,
 // doc-index, doc-offset, doc-max, doc-n, doc-other}; a call that does not return within the
 // watchdog is "hang".
@@ -186,6 +196,42 @@ func exec(in string) string {
 			return out
 		})
 	}
+	switch f[0] {
+	case "L":
+		vals := tr.UnInts(f[1])
+		mask, _ := strconv.Atoi(f[2])
+		m, _ := strconv.Atoi(f[3])
+		return guard(func() string {
+			calls := 0
+			var got []int
+			for v := range slice.Select(vals, func(v int) bool { calls++; return v >= 0 && v < 62 && (mask>>uint(v))&1 == 1 }) {
+				got = append(got, v)
+				if len(got) == m {
+					break
+				}
+			}
+			return tr.Ints(got) + " " + strconv.Itoa(calls)
+		})
+	case "M":
+		var m map[int]int
+		if f[1] != "nil" {
+			m = map[int]int{}
+			for _, k := range tr.UnInts(f[1]) {
+				m[k] = k + 100
+			}
+		}
+		return guard(func() string {
+			r := slice.MapKeys(m)
+			if r == nil {
+				return "nil"
+			}
+			slices.Sort(r)
+			return tr.Ints(r)
+		})
+	case "K":
+		_, out := matchingKeys(f)
+		return out
+	}
 	pre, _ := strconv.Atoi(f[1])
 	extra, _ := strconv.Atoi(f[2])
 	vals := tr.UnInts(f[3])
@@ -202,6 +248,12 @@ func exec(in string) string {
 		})
 	case "R":
 		return guard(func() string { slice.Rotate(vs, arg); return tr.Ints(base) })
+	case "Z":
+		return guard(func() string { slice.Zero(vs); return tr.Ints(base) })
+	case "V":
+		return guard(func() string { slice.Reverse(vs); return tr.Ints(base) })
+	case "D":
+		return guard(func() string { r := slice.Dedup(vs); return view(base, pre, n, r) + " " + tr.Ints(base) })
 	case "C":
 		return guard(func() string { r := slice.Chunks(vs, arg); return views(base, pre, n, r) + " " + tr.Ints(base) })
 	case "B":
@@ -224,6 +276,46 @@ func exec(in string) string {
 	return "?"
 }
 
+// matchingKeys runs MatchingKeys on {k: k+100}.  The order in which the runtime visits the map is
+// an oracle: it is recovered from the values f is called with and written into the last field of
+// the input.  When the input already names an order (a replayed line) the call is repeated until
+// the runtime happens to visit the map in that order (maps of up to 8 entries have few orders).
+func matchingKeys(f []string) (string, string) {
+	keys := tr.UnInts(f[1])
+	mask, _ := strconv.Atoi(f[2])
+	m, _ := strconv.Atoi(f[3])
+	want := "?"
+	if len(f) > 4 {
+		want = f[4]
+	}
+	mp := map[int]int{}
+	for _, k := range keys {
+		mp[k] = k + 100
+	}
+	var order, out string
+	for try := 0; try < 400; try++ {
+		var visited []int
+		out = guard(func() string {
+			var got []int
+			for k := range slice.MatchingKeys(mp, func(v int) bool {
+				visited = append(visited, v-100)
+				return v-100 >= 0 && v-100 < 62 && (mask>>uint(v-100))&1 == 1
+			}) {
+				got = append(got, k)
+				if len(got) == m {
+					break
+				}
+			}
+			return tr.Ints(got) + " " + strconv.Itoa(len(visited))
+		})
+		order = tr.Ints(visited)
+		if want == "?" || want == order {
+			break
+		}
+	}
+	return fmt.Sprintf("K %s %d %d %s", f[1], mask, m, order), out
+}
+
 type layout struct{ pre, extra int }
 
 var layouts = []layout{{0, 0}, {2, 3}, {0, 4}}
@@ -243,6 +335,10 @@ func line(k string, l layout, vals []int, arg int) string {
 func main() {
 	tr.Main("C17: exhaustive small scope - every length n <= 10 (quick) / 12 (thorough) under three base layouts (no slack; 2 elements before and 3 spare after; 4 spare after) plus the nil slice: every keep mask for Partition, every k in [-n-2, n+2] for Rotate (n <= 40/64), every chunk size / batch count in [-2, n+3], every Head/Tail count in [-2, n+extra+3], every At/PtrAt index in [-n-2, n+2], Stripe over all tuples of up to three lists of length <= 3; then random larger cases (duplicate values, lengths to 200). Returned slices are observed as offset/len/append-overwrites-input; the whole base array is re-read after every call. A case is non-trivial when the slice has at least two elements; distinct = distinct input lines.",
 		exec, func(g *tr.G) {
+			if g.Prop == "C17x" {
+				genExtra(g)
+				return
+			}
 			N := g.Scale(10, 12)
 			// the nil slice
 			nl := layout{-1, 0}
@@ -380,4 +476,58 @@ func main() {
 				g.Emit(fmt.Sprintf("S %d %s", g.R.Range(-1, 7), t), nl > 0, "stripe-random")
 			}
 		})
+}
+
+// genExtra: the supplementary operations (outside C17).
+func genExtra(g *tr.G) {
+	for n := 0; n <= 6; n++ {
+		for _, l := range layouts {
+			g.Emit(line("Z", l, iota(n), 0), n >= 1, "zero")
+			g.Emit(line("V", l, iota(n), 0), n >= 2, "reverse")
+		}
+		for mask := 0; mask < 1<<uint(n); mask++ {
+			for m := -1; m <= n+1; m++ {
+				g.Emit(fmt.Sprintf("L %s %d %d", tr.Ints(iota(n)), mask, m), n >= 2, "select-exhaustive")
+			}
+		}
+	}
+	// Dedup: all sequences over {0,1,2} up to length 6
+	var rec func(cur []int)
+	rec = func(cur []int) {
+		for _, l := range layouts {
+			g.Emit(line("D", l, cur, 0), len(cur) >= 2, "dedup-exhaustive")
+		}
+		if len(cur) == 6 {
+			return
+		}
+		for v := 0; v < 3; v++ {
+			rec(append(slices.Clone(cur), v))
+		}
+	}
+	rec(nil)
+	g.Emit("M nil", false, "mapkeys")
+	for n := 0; n <= 8; n++ {
+		g.Emit("M "+tr.Ints(iota(n)), n >= 1, "mapkeys")
+	}
+	for it := 0; it < g.Scale(3000, 30000); it++ {
+		n := g.R.Intn(9)
+		keys := make([]int, 0, n)
+		for k := 0; len(keys) < n; k++ {
+			if g.R.Chance(2, 3) {
+				keys = append(keys, k)
+			}
+		}
+		mask := g.R.Intn(1 << 14)
+		m := g.R.Range(-1, n+1)
+		in, out := matchingKeys([]string{"K", tr.Ints(keys), strconv.Itoa(mask), strconv.Itoa(m)})
+		g.W.Case(in, out, n >= 2, "matchingkeys")
+		big := make([]int, g.R.Intn(40))
+		for i := range big {
+			big[i] = g.R.Intn(14)
+		}
+		g.Emit(fmt.Sprintf("L %s %d %d", tr.Ints(big), mask, g.R.Range(-1, len(big)+1)), len(big) >= 2, "select-random")
+		g.Emit(line("D", layout{g.R.Intn(3), g.R.Intn(4)}, big, 0), len(big) >= 2, "dedup-random")
+		g.Emit(line("Z", layout{g.R.Intn(3), g.R.Intn(4)}, big, 0), len(big) >= 1, "zero")
+		g.Emit(line("V", layout{g.R.Intn(3), g.R.Intn(4)}, big, 0), len(big) >= 2, "reverse")
+	}
 }
